@@ -10,6 +10,8 @@ QUICK = [
     ('c09_designation_len7', 900, False, True, 'parse_time_zone_designation on <=7 bytes: alphabetic run, or quoted <...>'),
     ('c09_parse_int_real_utf8_len3', 900, False, True, 'parse_int::<i32> with the REAL UTF-8 validation on <=3 arbitrary bytes'),
     ('c09_rule_block', 1800, True, False, 'parse_rule_block with the two time parsers abstracted: default 02:00:00 when no "/", the extension flag selects the parser'),
+    ('c09_block_real_time_posix_len5', 1800, True, True, 'parse_rule_block on "5/" + <=5 arbitrary ASCII bytes, extensions off, REAL time parser behind it (named only through parse_rule_block: robust to refactors of the private time parsers): unsigned, hour <= 24'),
+    ('c09_block_real_time_ext_len5', 1800, True, True, 'same with extensions on: optional sign, |hour| <= 167'),
     ('c09_composition', 2400, False, False, 'parse_posix_tz on <=6 arbitrary bytes with name / offset / rule-block parsers abstracted: grammar replayed on the call log; UTC offset = -offset, missing DST offset = std - 3600, separators, RemainingData, MissingDstStartEndRules, AlternateTime::new of the logged values'),
 ]
 THOROUGH = [
